@@ -29,13 +29,12 @@ package attr
 //@   maypanic
 //@   ensures len(result) == n
 
-// Get finds the first attribute with the given local name in no namespace (the
-// stanza attributes id, from, to, type and the extension attributes looked up
-// with it are all unqualified); an attribute of a foreign namespace with the
-// same local name is not a match.
+// Get finds the first attribute with the given local name, whatever its
+// namespace (callers that mean an unqualified stanza attribute have to check
+// the namespace themselves).
 //@ func Get
-//@   ensures[C07,C12] result0 >= 0 ==> result0 < len(attr) && attr[result0].Name.Space == "" && attr[result0].Name.Local == local && result1 == attr[result0].Value
-//@   ensures[C07,C12] result0 >= 0 ==> forall k int :: 0 <= k && k < result0 ==> !(attr[k].Name.Space == "" && attr[k].Name.Local == local)
-//@   ensures[C07,C12] result0 < 0 ==> result0 == -1 && result1 == "" && (forall k int :: 0 <= k && k < len(attr) ==> !(attr[k].Name.Space == "" && attr[k].Name.Local == local))
+//@   ensures[C07,C12] result0 >= 0 ==> result0 < len(attr) && attr[result0].Name.Local == local && result1 == attr[result0].Value
+//@   ensures[C07,C12] result0 >= 0 ==> forall k int :: 0 <= k && k < result0 ==> attr[k].Name.Local != local
+//@   ensures[C07,C12] result0 < 0 ==> result0 == -1 && result1 == "" && (forall k int :: 0 <= k && k < len(attr) ==> attr[k].Name.Local != local)
 //@   loop 1
-//@     invariant[C07,C12] forall k int :: 0 <= k && k <= rangeindex ==> !(attr[k].Name.Space == "" && attr[k].Name.Local == local)
+//@     invariant[C07,C12] forall k int :: 0 <= k && k <= rangeindex ==> attr[k].Name.Local != local
